@@ -9,6 +9,6 @@ Extraction Language OCaml.
 Extraction "model.ml"
   Txt.service_new_txt Txt.encode_txt Txt.decode_txt Txt.decode_txt_unique Txt.txt_get
   Txt.accepted Txt.dedup_ci Utf8.utf8_valid
-  Wire.decode Wire.read_name
+  Wire.decode Wire.read_name Wire.name_fits C02Spec.dotted
   WireOut.to_packets_tables WireOut.to_packets WireOut.key_string WireOut.name_labels WireOut.escape_label Rfc1035.ref_parse Rfc1035.ref_u16 C02Spec.chk_C02 C02Spec.wf_out C02Spec.fits
   C02Spec.opt_rrs C02Spec.present_q C02Spec.decoder_agrees N.eqb N.add N.mul N.land N.div N.modulo.
